@@ -549,6 +549,16 @@ def check(ctx):
                         # direct call of the user callable through an alias
                         if isinstance(c.func, ast.Attribute) and c.func.attr in R.target_attrs:
                             offenders.append((c, None))
+            reraises = bool(node.handlers) and not node.finalbody and all(
+                h.body and isinstance(h.body[-1], ast.Raise) and h.body[-1].exc is None
+                and not any(isinstance(n, (ast.Return, ast.Continue, ast.Break)) or (isinstance(n, ast.Raise) and n is not h.body[-1]) for b in h.body for n in ast.walk(b))
+                and not any(isinstance(b, (ast.If, ast.For, ast.While, ast.Try, ast.With)) for b in h.body)
+                for h in node.handlers)
+            if offenders and reraises:
+                # every handler is a straight line that ends in a bare ``raise``: the very exception object goes on (its
+                # args may have been extended, its type cannot change)
+                ctx.ok(fn, node, "handlers around a target-reaching call re-raise the same exception (bare raise on a straight line)")
+                continue
             if offenders and node.handlers:
                 c, t = offenders[0]
                 path = prog.call_path(t, R.logger_call) if t is not None else None
